@@ -673,6 +673,43 @@ Section ConnProofs.
   Qed.
 End ConnProofs.
 
+(** the failure modes of the loop: after the server closed, nothing more is written; a request beyond the
+    limiter's drop level closes without an answer; a request for an unknown host gets a well-formed 409 and
+    the connection is closed *)
+Section CloseProofs.
+  Variables Q A : Type.
+  Variable q_method : Q -> N.
+  Variable q_content_length : Q -> option bytes.
+  Variable q_known_host : Q -> bool.
+  Variable q_head : Q -> bytes.
+  Variable app : A -> Q -> A * reply0 * option N.
+  Variable error_body : N -> option bytes -> bytes.
+  Variable package : Q -> head -> head.
+  Variable too_many_body : bytes.
+  Variables drain head_rule : bool.
+
+  Lemma closed_is_silent_lemma (hs : list (hreq Q)) (a : A) :
+    conn_run Q A q_method q_content_length q_known_host q_head app error_body package too_many_body drain head_rule a Closed hs
+    = (map (fun _ => None) hs, Closed).
+  Proof.
+    induction hs as [|h hs IH]; [reflexivity|]. cbn [conn_run map]. rewrite IH. reflexivity.
+  Qed.
+
+  Lemma closing_requests_lemma (h : hreq Q) (a : A) :
+    (q_known_host (h_q h) = false ->
+     conn_step Q A q_method q_content_length q_known_host q_head app error_body package too_many_body drain true a [] h
+     = (a, Some (no_host error_body true (q_method (h_q h))), Closed) /\
+     framed (q_method (h_q h)) (no_host error_body true (q_method (h_q h)))) /\
+    (q_known_host (h_q h) = true -> h_action h = ADrop ->
+     conn_step Q A q_method q_content_length q_known_host q_head app error_body package too_many_body drain head_rule a [] h
+     = (a, None, Closed)).
+  Proof.
+    split.
+    - intros Hk. split; [|apply no_host_framed]. unfold conn_step. rewrite Hk. reflexivity.
+    - intros Hk Ha. unfold conn_step. rewrite Hk, Ha. reflexivity.
+  Qed.
+End CloseProofs.
+
 (** ---- witnesses: the code before the C08 repairs, and why the hypotheses are needed ---- *)
 Definition w_cfg : c8cfg :=
   mkC8 (mkCfg true false true [] [] [] 500) [(B "/f.txt", B "0123456789abcdefghij")] [] 0.
